@@ -13,12 +13,11 @@ LY = 'synapgrad.nn.layers'
 
 
 def check(model, R, tier):
-    funcs = model.module_functions(CT) + [f for f in model.module_functions('synapgrad.cpu_ops') if 'pool' in f.name or 'conv' in f.name]
-    RC.check_geom(model, R, 'C06', funcs)
+    from sa import rules_convpe as CP
+    CP.check_conv_pe(model, R, 'C06')
+    funcs = [f for f in model.module_functions('synapgrad.cpu_ops') if 'pool' in f.name or 'conv' in f.name]
+    RC.check_geom(model, R, 'C06', funcs, declare=False)
     check_layer_geom(model, R)
-    RC.check_outsize(model, R, 'C06')
-    RC.check_empty(model, R, 'C06')
-    RC.check_strided(model, R, 'C06')
     check_pad(model, R)
     check_bn_form(model, R)
     check_enum(model, R)
